@@ -117,6 +117,9 @@ structure MarkedF (xs : List Nat) (g g' : G) : Prop where
   live       : g'.live = g.live
   peak       : g'.peak = g.peak
   depsOk     : g'.depsOk = g.depsOk
+  freshOk    : g'.freshOk = g.freshOk
+  cancelOk   : g'.cancelOk = g.cancelOk
+  restartOk  : g'.restartOk = g.restartOk
   oneJob     : g'.oneJob = g.oneJob
 
 theorem markFailed_spec (xs : List Nat) (g : G) : MarkedF xs g (markFailed xs g) := by
@@ -132,6 +135,7 @@ theorem markFailed_spec (xs : List Nat) (g : G) : MarkedF xs g (markFailed xs g)
                     | exact h.inProgress | exact h.cancelled | exact h.ready | exact h.isCanceled
                     | exact h.subCount | exact h.cleanup | exact h.cancelQ | exact h.log
                     | exact h.live | exact h.peak | exact h.depsOk | exact h.oneJob
+                    | exact h.freshOk | exact h.cancelOk | exact h.restartOk
 
 structure MarkedC (xs : List Nat) (g g' : G) : Prop where
   cancelled  : ∀ a, a ∈ g'.cancelled ↔ a ∈ xs ∨ a ∈ g.cancelled
@@ -151,6 +155,9 @@ structure MarkedC (xs : List Nat) (g g' : G) : Prop where
   live       : g'.live = g.live
   peak       : g'.peak = g.peak
   depsOk     : g'.depsOk = g.depsOk
+  freshOk    : g'.freshOk = g.freshOk
+  cancelOk   : g'.cancelOk = g.cancelOk
+  restartOk  : g'.restartOk = g.restartOk
   oneJob     : g'.oneJob = g.oneJob
 
 theorem markCancelled_spec (xs : List Nat) (g : G) : MarkedC xs g (markCancelled xs g) := by
@@ -166,6 +173,7 @@ theorem markCancelled_spec (xs : List Nat) (g : G) : MarkedC xs g (markCancelled
                     | exact h.inProgress | exact h.failed | exact h.ready | exact h.isCanceled
                     | exact h.subCount | exact h.cleanup | exact h.cancelQ | exact h.log
                     | exact h.live | exact h.peak | exact h.depsOk | exact h.oneJob
+                    | exact h.freshOk | exact h.cancelOk | exact h.restartOk
 
 /-! ### frame of the submission retry loop -/
 
@@ -183,6 +191,9 @@ structure SubmitFrame (cfg : Cfg) (i : Nat) (restart : Bool) (g g' : G) : Prop w
   cleanup    : g'.cleanup = g.cleanup
   cancelQ    : g'.cancelQ = g.cancelQ
   depsOk     : g'.depsOk = g.depsOk
+  freshOk    : g'.freshOk = g.freshOk
+  cancelOk   : g'.cancelOk = g.cancelOk
+  restartOk  : g'.restartOk = g.restartOk
 
 theorem SubmitFrame.refl (cfg : Cfg) (i : Nat) (restart : Bool) (g : G) :
     SubmitFrame cfg i restart g g := by
@@ -203,7 +214,8 @@ theorem SubmitFrame.trans {cfg : Cfg} {i : Nat} {restart : Bool} {g g1 g2 : G}
     | (rw [h2.failed, h1.failed]) | (rw [h2.cancelled, h1.cancelled])
     | (rw [h2.ready, h1.ready]) | (rw [h2.isCanceled, h1.isCanceled])
     | (rw [h2.cleanup, h1.cleanup]) | (rw [h2.cancelQ, h1.cancelQ])
-    | (rw [h2.depsOk, h1.depsOk])
+    | (rw [h2.depsOk, h1.depsOk]) | (rw [h2.freshOk, h1.freshOk])
+    | (rw [h2.cancelOk, h1.cancelOk]) | (rw [h2.restartOk, h1.restartOk])
 
 theorem attempt_frame (cfg : Cfg) (i : Nat) (restart : Bool) (g : G) :
     SubmitFrame cfg i restart g (attempt cfg i restart g).1 := by
